@@ -1,5 +1,16 @@
 package main
 
+import (
+	"bytes"
+	"encoding/json"
+	"fmt"
+	"os"
+	"os/exec"
+	"path/filepath"
+	"strings"
+	"time"
+)
+
 // notCoveredClauses lists, per property, the parts of the statement the contracts do not decide.
 var notCoveredClauses = map[string][]string{}
 
@@ -11,6 +22,9 @@ func tryReplay(eng *Engine, prop string, o *Obligation) bool {
 		return false
 	}
 	out := h.run(eng, o)
+	if out != nil {
+		out.Harness = h.name
+	}
 	replayOutcomes[o.Name] = out
 	return out != nil && out.Confirmed
 }
@@ -30,4 +44,118 @@ func findHarness(o *Obligation) *harness {
 		}
 	}
 	return nil
+}
+
+// runOverlayTest injects an in-package test into pkgDir (relative to the repository root) with
+// `go test -overlay`, so nothing is written to /repo, and runs it.
+func runOverlayTest(pkgDir, testSrc, runRe string) (string, bool) {
+	tmp := filepath.Join(outDir, "replay", "tmp", fmt.Sprintf("%d", time.Now().UnixNano()))
+	os.MkdirAll(tmp, 0o755)
+	defer os.RemoveAll(tmp)
+	src := filepath.Join(tmp, "zz_govc_replay_test.go")
+	os.WriteFile(src, []byte(testSrc), 0o644)
+	ov := map[string]map[string]string{"Replace": {filepath.Join(repoDir, pkgDir, "zz_govc_replay_test.go"): src}}
+	ovData, _ := json.Marshal(ov)
+	ovFile := filepath.Join(tmp, "overlay.json")
+	os.WriteFile(ovFile, ovData, 0o644)
+	cmd := exec.Command("go", "test", "-overlay", ovFile, "-vet=off", "-count=1", "-timeout", "120s", "-run", runRe, "-v", "./"+pkgDir)
+	cmd.Dir = repoDir
+	cmd.Env = append(os.Environ(), "GOFLAGS=-mod=mod", "GOPROXY=off", "GOSUMDB=off", "GOTOOLCHAIN=local")
+	var out bytes.Buffer
+	cmd.Stdout = &out
+	cmd.Stderr = &out
+	err := cmd.Run()
+	return out.String(), err == nil
+}
+
+// outcomeFromOutput interprets the conventional markers printed by replay tests.
+func outcomeFromOutput(testSrc, out string) *ReplayOutcome {
+	return &ReplayOutcome{Confirmed: strings.Contains(out, "REPLAY-CONFIRMED"), Test: testSrc, Output: truncate(out, 6000)}
+}
+
+func modelInt(o *Obligation, name string, def string) string {
+	v, ok := o.Model[name]
+	if !ok {
+		return def
+	}
+	v = strings.TrimSpace(v)
+	if strings.HasPrefix(v, "#x") {
+		return "0x" + v[2:]
+	}
+	if strings.HasPrefix(v, "#b") {
+		return "0b" + v[2:]
+	}
+	if strings.HasPrefix(v, "(- ") {
+		return "-" + strings.TrimSuffix(v[3:], ")")
+	}
+	return v
+}
+
+func init() {
+	harnesses = append(harnesses, &harness{
+		name: "health-flag interleaving stress (two goroutines on one flag word)",
+		match: func(o *Obligation) bool {
+			return o.Kind == "guarantee" && (strings.Contains(o.Func, "cluster.SetHealthFlag") || strings.Contains(o.Func, "cluster.ClearHealthFlag"))
+		},
+		run: func(eng *Engine, o *Obligation) *ReplayOutcome {
+			flag := modelInt(o, "flag", "1")
+			src := fmt.Sprintf(`package cluster
+
+import (
+	"fmt"
+	"sync"
+	"sync/atomic"
+	"testing"
+
+	"mosn.io/api"
+)
+
+// The refuted guarantee says: between this function's atomic load and its atomic store another
+// goroutine changes a different bit of the same word, and the store then overwrites that change.
+// Replay: one goroutine toggles the model's flag, another sets/clears a different flag and
+// re-reads it immediately; a lost or resurrected bit reproduces the counterexample.
+func TestGovcReplay(t *testing.T) {
+	mine := api.HealthFlag(%s)
+	if mine == 0 {
+		mine = 1
+	}
+	other := api.HealthFlag(1)
+	for other&mine != 0 {
+		other <<= 1
+	}
+	var word uint64
+	var stop int32
+	var wg sync.WaitGroup
+	wg.Add(1)
+	go func() {
+		defer wg.Done()
+		for atomic.LoadInt32(&stop) == 0 {
+			SetHealthFlag(&word, mine)
+			ClearHealthFlag(&word, mine)
+		}
+	}()
+	lost, resurrected := 0, 0
+	for i := 0; i < 2000000 && lost+resurrected == 0; i++ {
+		SetHealthFlag(&word, other)
+		if atomic.LoadUint64(&word)&uint64(other) == 0 {
+			lost++
+		}
+		ClearHealthFlag(&word, other)
+		if atomic.LoadUint64(&word)&uint64(other) != 0 {
+			resurrected++
+		}
+	}
+	atomic.StoreInt32(&stop, 1)
+	wg.Wait()
+	if lost+resurrected > 0 {
+		fmt.Printf("REPLAY-CONFIRMED lost=%%d resurrected=%%d (flag %%#x vs %%#x)\n", lost, resurrected, uint64(mine), uint64(other))
+	} else {
+		fmt.Println("REPLAY-NOT-REPRODUCED")
+	}
+}
+`, flag)
+			out, _ := runOverlayTest("pkg/upstream/cluster", src, "^TestGovcReplay$")
+			return outcomeFromOutput(src, out)
+		},
+	})
 }
